@@ -94,7 +94,7 @@ def convertUCNAux : Nat → List Nat → Nat → List (Nat × Nat)
   | f + 1, a :: rest, s =>
     if a = BSL then
       match rest with
-      | [] => [(a, s)]    -- (`*q++ = *p++; *q++ = *p++;` would copy the terminator and run on; texts end in '\n', so a backslash is never last)
+      | [] => [(a, s)]    -- `*q++ = *p++; *q++ = *p++;` would copy the terminator and run on: unreachable, the text ends in '\n' (Props `C18_text_ends_newline`)
       | b :: rest' =>
         if b = 117 then                                       -- "\\u"
           let c := readUniversalChar rest' 4 0
